@@ -233,7 +233,7 @@ void h_unregister(void)
 	__CPROVER_assert(IFF(g_sigactions == 1, oldcount == 1) && IMPLIES(g_sigactions == 1, g_sa_sig == sn && g_sa_handler == SIG_DFL), "[C10] the default disposition is restored exactly when the last interest for the signal goes away");
 	__CPROVER_assert(IFF(g_wake_calls == 1, oldcount > 1 && (v_is[0].flags & IV_SIGNAL_FLAG_EXCLUSIVE) && v_is[0].active),
 			 "[C10] a delivery noted for an exclusive interest that is unregistered before its handler ran is handed to the next interest rather than dropped");
-	__CPROVER_assert(g_wake_before_delete == 0, "[C10] the interest has left its set before its pending delivery is handed on, so the wake-up goes to the next interest and not back to the one being unregistered");
+	__CPROVER_assert(g_wake_before_delete == 0, "[C10,C11] the interest has left its set before its pending delivery is handed on, so the wake-up goes to the next interest and not back to the one being unregistered");
 	__CPROVER_assert(IMPLIES(g_wake_calls == 1, g_wake_sig == sn && ((v_is[0].flags & IV_SIGNAL_FLAG_THIS_THREAD) ? g_wake_thr == 1 : g_wake_proc == 1)), "[C10] on the same set, for the same signal");
 	__CPROVER_assert(g_raw_unreg == 1 && g_raw_unreg_locked == 0, "[C01,C10] the raw event is released after the lock is dropped");
 	__CPROVER_assert(!g_lock_held && g_lock_acq == 1 && g_mask == 0x5a5aUL && g_lock_with_unblocked == 0, "[C10,C14] lock and mask balanced");
